@@ -1039,6 +1039,7 @@ func c15Keys() {
 func c15(c *Ctx) {
 	c15Keys()
 	child := c15StartChild(c) // the close hammer / livelock / leak probes run in a child process, in parallel
+	c15FlagClash(c)           // one valid tx whose contract code equals a trie node written in the same block (child process)
 	srvPub := ecies.ImportECDSAPublic(&c15Prv.PublicKey)
 
 	// (0) constants, read from the code
